@@ -9,7 +9,7 @@ from .common import NCPU
 
 BODIES = ["none", "json", "form", "multi", "octet", "json+unsup", "unsup", "badschema", "json+badschema", "noschema",
           "ref", "refchain", "refcycle", "refdangling"]
-LAWS = ["Census", "Containment", "Downgrades", "Precedence"]
+LAWS = ["Census", "Containment", "Downgrades", "Precedence", "RefTransparent"]
 S = {"type": "string"}
 MODEL = {"$ref": "#/components/schemas/Model"}
 BADSCHEMA = {"type": "array"}          # array without items
@@ -89,6 +89,50 @@ COMPONENTS = {
 }
 
 
+def inline_op(op: dict, sites: set | None = None) -> dict:
+    """The operation with reference sites (all, or the given subset of {'param','piparam','body','resp'}) written inline."""
+    import copy
+    o = copy.deepcopy(op)
+    sites = sites or {"param", "piparam", "body", "resp"}
+    if "param" in sites:
+        for p in o["ps"]:
+            if p["how"] == "ref":
+                p["how"] = "ok"
+    if "piparam" in sites:
+        for p in o["pips"]:
+            if p["how"] == "ref":
+                p["how"] = "ok"
+    if "body" in sites and o["body"] in ("ref", "refchain"):
+        o["body"] = "json"
+    if "resp" in sites:
+        for r in o["rs"]:
+            if r["how"] == "ref":
+                r["how"] = "model"
+    return o
+
+
+def ref_sites(op: dict) -> set:
+    s = set()
+    if any(p["how"] == "ref" for p in op["ps"]):
+        s.add("param")
+    if any(p["how"] == "ref" for p in op["pips"]):
+        s.add("piparam")
+    if op["body"] in ("ref", "refchain"):
+        s.add("body")
+    if any(r["how"] == "ref" for r in op["rs"]):
+        s.add("resp")
+    return s
+
+
+# a first operation that uses the same components in a CONFLICTING context (path parameter `a` next to the shared query `a`)
+def context_paths(inline: bool) -> dict:
+    aq = {"name": "a", "in": "query", "schema": S} if inline else {"$ref": "#/components/parameters/AQuery"}
+    body = conc_body("json") if inline else {"$ref": "#/components/requestBodies/Good"}
+    resp = conc_resp({"how": "model"}) if inline else {"$ref": "#/components/responses/Good"}
+    return {"/ctx/{a}": {"put": {"operationId": "ctxOp", "parameters": [{"name": "a", "in": "path", "required": True, "schema": S}, aq],
+                                 "requestBody": body, "responses": {"200": resp}}}}
+
+
 def path_of(op: dict) -> str:
     return "/x/{id}" if op["pathvar"] else "/x"
 
@@ -103,8 +147,8 @@ def concretize(op: dict, method: str = "post", extra_paths: dict | None = None) 
     item = {method: o}
     if op["pips"]:
         item["parameters"] = [conc_param(p) for p in op["pips"]]
-    paths = {path_of(op): item}
-    paths.update(extra_paths or {})
+    paths = dict(extra_paths or {})
+    paths[path_of(op)] = item
     import copy
     return gen.mkdoc(paths=paths, components=copy.deepcopy(COMPONENTS))
 
